@@ -105,8 +105,10 @@ def ensure_makefile():
 def prop_modules(pid):
     """Props/<pid>.v plus its continuation files Props/<pid>_*.v (e.g. Props/C05_closed.v): all of them hold
     property theorems of <pid> (same rules: statements + `exact lemma` + Print Assumptions)"""
+    listed = {ln.strip() for ln in open(os.path.join(COQ, "_CoqProject")) if ln.strip().endswith(".v")}
     d = os.path.join(COQ, "Props")
-    extra = sorted(f[:-2] for f in os.listdir(d) if f.startswith(pid + "_") and f.endswith(".v"))
+    extra = sorted(f[:-2] for f in os.listdir(d)
+                   if f.startswith(pid + "_") and f.endswith(".v") and f"Props/{f}" in listed)   # registered files only
     return [pid] + extra
 
 
